@@ -42,7 +42,7 @@ template<class A> struct World {
   struct Call { std::string fn, key; std::function<std::string()> run; };
   std::vector<Call> calls;
   World():ar(4<<20){
-    for(const char*s:{"s://u@h:1/a/b/c?q#f","s://h/a/b/","s://h/a/../b/./c","s:/a/b","s:a/b","t://[::1]/x","s://1.2.3.4/","//h/p","../x/./y","?q","#f","","./a:b","s://H%41/%7e%3a?%41","a/../..//b","s://h/a/b/c/d/e/f/g"}){
+    for(const char*s:{"s://u@h:1/a/b/c?q#f","s://h/a/b/","s://h/a/../b/./c","s:/a/b","s:a/b","t://[::1]/x","s://1.2.3.4/","//h/p","../x/./y","?q","#f","","./a:b","s://H%41/%7e%3a?%41","a/../..//b","s://h/a/b/c/d/e/f/g","s://[v7.Fe:Ed]/p","//u@[vF.x]:1","s://[2001:DB8::ABCD]/A","S://U@Ex.COM:80/%41"}){
       Text t=T(s); Ch*p=ar.text<Ch>(t); Uri*u=(Uri*)ar.get(sizeof(Uri)); const Ch*e; if(A::ParseSingleUriExMm(u,p,p+t.size(),&e,&ar.mm)==URI_SUCCESS){ uris.push_back(u); utexts.push_back(t); } }
     for(const char*s:{"a b+c%41%0D%0A\r\nz","k1=v1&k2=v+2&&=&k3&%3D=%26","/bin/bash","C:\\dir\\file name","\\\\srv\\share\\x","file:///C:/x%20y","file:///etc/passwd","%2","s://[::1","hello world \xe4\xf6"}){ Text t=T(s); strs.push_back(ar.text<Ch>(t)); stexts.push_back(t); }
     { const Ch*q=strs[1]; int cnt=0; A::DissectQueryMallocExMm(&ql,&cnt,q,q+stexts[1].size(),URI_TRUE,URI_BR_DONT_TOUCH,&ar.mm); }
